@@ -161,15 +161,38 @@ def safe_grid(n, g, p):
 
 
 # ------------------------------------------------------------------------------------------------- trees
+def err_site(e):
+    """innermost frame inside the library: 'file.py:function' (part of the finding signature)"""
+    import traceback
+    site = "?"
+    for fr in traceback.extract_tb(e.__traceback__):
+        if "/nifty/" in fr.filename:
+            site = fr.filename.split("/nifty/")[-1] + ":" + fr.name
+    return site
+
+
 def real_eval(case):
-    """real code: dict(val, pval, jac, adj, metric, din) or {"error": kind}"""
+    """real code, operator-tree mode: dict(val, pval, jac, adj, metric, din) or {"error": kind}"""
     try:
         with quiet():
             b = X.Builder(case["indom"], case.get("space", "U"))
             op = b.build(case["expr"])
             return X.linearize(b, op, X.dom(case["expr"]), {k: np.array(v) for k, v in case["x"].items()}, case["wm"]), b, op
     except Exception as e:
-        return {"error": type(e).__name__, "msg": str(e)[:200]}, None, None
+        return {"error": type(e).__name__, "msg": str(e)[:200], "where": err_site(e)}, None, None
+
+
+def arith_eval(case):
+    """real code, Linearization-arithmetic mode (deterministic choice of operator spellings per case)"""
+    import random
+    from core.ctx import canon
+    try:
+        with quiet():
+            b = X.Builder(case["indom"], case.get("space", "U"))
+            rng = random.Random(canon(case))
+            return X.linearize_arith(b, case["expr"], {k: np.array(v) for k, v in case["x"].items()}, case["wm"], rng)
+    except Exception as e:
+        return {"error": type(e).__name__, "msg": str(e)[:200], "where": err_site(e)}
 
 
 def model_request(case, din):
@@ -188,6 +211,26 @@ def close(a, b, tol=TOL):
     m = ~np.isnan(a)
     scale = max(1.0, float(np.max(np.abs(b[m]))) if np.any(m) else 1.0)
     return bool(np.all(np.abs(a[m] - b[m]) <= tol * scale))
+
+
+def compare_arith(ctx, case, r, r2, m):
+    """model vs Linearization arithmetic: value, dense Jacobian and adjoint over the full environment"""
+    if "error" in r or "error" in m or "error" in r2:
+        return          # errors are examined by the oracle
+    din, dall = r["din"], r2["din"]
+    nin, nout = X.nflat(din), X.nflat(X.dom(case["expr"]))
+    mj = embed_cols(X.dec2(m["jac"], nout).T if nin else np.zeros((nout, 0)), din, dall)
+    ma = embed_cols((X.dec2(m["adj"], nin).T if nout else np.zeros((nin, 0))).T, din, dall).T
+    diffs = []
+    if not close(r2["val"], X.dec(m["val"])):
+        diffs.append("value")
+    if not close(r2["jac"], mj):
+        diffs.append("jacobian")
+    if not close(r2["adj"], ma):
+        diffs.append("adjoint")
+    if diffs:
+        ctx.disagree(case, "Linearization arithmetic: " + ", ".join(diffs) + " differ", "model",
+                     note="Linearization arithmetic: " + ", ".join(diffs))
 
 
 def compare_tree(ctx, case, r, m):
@@ -258,9 +301,10 @@ def oracle(case):
         p = case.get("p", [])
         return ptw_oracle(case["f"], p, safe_grid(case["f"], g, p))
     r, b, op = real_eval(case)
-    sig = {"site": "tree", "root": case["expr"]["t"], "ops": sorted({n["t"] for n in X.nodes(case["expr"])})}
+    sig = {"site": "operator-tree"}
     if "error" in r:
-        return (f"building/evaluating the operator raised {r['error']}: {r.get('msg', '')}", dict(sig, kind="error:" + r["error"]))
+        return (f"building/evaluating the operator raised {r['error']} in {r.get('where')}: {r.get('msg', '')}",
+                dict(sig, kind="error:" + r["error"], where=r.get("where")))
     x = {k: np.array(v) for k, v in case["x"].items()}
     tdom = X.dom(case["expr"])
     if not close(r["val"], r["pval"], 1e-12):
@@ -285,6 +329,18 @@ def oracle(case):
                 return ("the metric is not JᵀNJ of the energies", dict(sig, kind="metric"))
         if r["metric"] is not None and not close(r["metric"], r["metric"].T, 1e-12):
             return ("metric is not symmetric", dict(sig, kind="metric-symmetry"))
+    # the same expression evaluated with the arithmetic of Linearization objects
+    r2 = arith_eval(case)
+    sig2 = dict(sig, site="linearization-arithmetic")
+    if "error" in r2:
+        return (f"Linearization arithmetic raised {r2['error']} in {r2.get('where')}: {r2.get('msg', '')}",
+                dict(sig2, kind="error:" + r2["error"], where=r2.get("where")))
+    if not close(r2["val"], r["pval"], 1e-12):
+        return ("Linearization arithmetic: value differs from plain evaluation", dict(sig2, kind="value"))
+    if not close(r2["jac"], embed_cols(J, r["din"], r2["din"]), 2e-6):
+        return ("Linearization arithmetic: Jacobian differs from finite differences", dict(sig2, kind="jacobian"))
+    if not close(r2["adj"], r2["jac"].T, 1e-12):
+        return ("Linearization arithmetic: adjoint Jacobian is not the transpose", dict(sig2, kind="adjoint"))
     return None
 
 
@@ -294,12 +350,12 @@ def shrink(case):
     t = case["expr"]
 
     def subtrees(t):
-        for c in X.children(t):
+        # a subtree is a valid case over the same environment unless it lives under a chain's `f`
+        for c in ([t["g"]] if t["t"] == "chain" else X.children(t)):
             yield c
             yield from subtrees(c)
     seen = 0
     for s in subtrees(t):
-        # a subtree is a valid case over the same environment unless it lives under a chain's `f`
         if seen > 40:
             break
         seen += 1
@@ -352,6 +408,7 @@ def run(ctx):
         outs += ctx.model(DRIVER, reqs[i:i + B])
     for c, r, m in zip(cases, reals, outs):
         compare_tree(ctx, c, r, m)
+        compare_arith(ctx, c, r, arith_eval(c), m)
         res = oracle(c)
         if res:
             ctx.counterexample(c, *res)
